@@ -67,7 +67,8 @@ Others(c) == Chains \ {c}
 T(p)      == <<p.src, p.dst, p.seq>>
 Max(S)    == CHOOSE x \in S : \A y \in S : y <= x
 
-Packet(s, d, n, k, a, cl, f) == [src |-> s, dst |-> d, seq |-> n, kind |-> k, amt |-> a, call |-> cl, fee |-> f, mut |-> 0]
+(* cb: the sender's callback contract ("none", or "bad": a contract without the callback function) *)
+Packet(s, d, n, k, a, cl, f) == [src |-> s, dst |-> d, seq |-> n, kind |-> k, amt |-> a, call |-> cl, fee |-> f, mut |-> 0, cb |-> "none"]
 
 (* code the destination callback returns *)
 CallCode(q) == CASE q.call = "revert"   -> 3    \* endpoint: "execute call data failed"
@@ -105,10 +106,10 @@ SendOK(c, d, k, a, f) ==
   /\ k = "fwd"  => ubal[c] >= a + f
   /\ k = "back" => wbal[c][d] >= a /\ ubal[c] >= f
 
-SendEff(c, d, k, a, cl, f) ==
+SendEffCb(c, d, k, a, cl, f, cb) ==
   IF ~SendOK(c, d, k, a, f) THEN UNCHANGED stateVars
   ELSE
-  LET p == Packet(c, d, seq[c][d], k, a, cl, f) IN
+  LET p == [Packet(c, d, seq[c][d], k, a, cl, f) EXCEPT !.cb = cb] IN
   /\ seq'  = [seq  EXCEPT ![c][d] = @ + 1]
   /\ cseq' = [cseq EXCEPT ![c][d] = @ + 1]
   /\ commits' = [commits EXCEPT ![c] = @ \cup {p}]
@@ -128,6 +129,8 @@ SendEff(c, d, k, a, cl, f) ==
             /\ UNCHANGED <<out, wbal, bind>>
   /\ UNCHANGED <<h, receipts, acks, rbal, clients, marks, snaps>>
 
+SendEff(c, d, k, a, cl, f) == SendEffCb(c, d, k, a, cl, f, "none")
+
 Send(c, d, k, a, cl, f) ==
   /\ SendEff(c, d, k, a, cl, f)
   /\ last' = [act |-> "Send", res |-> Res(SendOK(c, d, k, a, f)), chain |-> c, dst |-> d, kind |-> k, amt |-> a, call |-> cl, fee |-> f]
@@ -137,6 +140,27 @@ Send(c, d, k, a, cl, f) ==
 SendVia(c, d, cl) ==
   /\ SendEff(c, d, "none", 0, cl, 0)
   /\ last' = [act |-> "Send", res |-> Res(SendOK(c, d, "none", 0, 0)), chain |-> c, dst |-> d, kind |-> "none", amt |-> 0, call |-> cl, fee |-> 0, via |-> "contract"]
+
+(* a token transfer whose packet names a callback contract that does not implement the callback: every              *)
+(* acknowledgement of it makes OnAcknowledgePacket revert, so none is ever accepted (the commitment stays)          *)
+SendBadCb(c, d, a) ==
+  /\ SendEffCb(c, d, "fwd", a, "none", 0, "bad")
+  /\ last' = [act |-> "Send", res |-> Res(SendOK(c, d, "fwd", a, 0)), chain |-> c, dst |-> d, kind |-> "fwd", amt |-> a, call |-> "none", fee |-> 0, cb |-> "bad"]
+
+(* two call-only packets sent by one transaction (a batching contract calls the endpoint twice): to two different   *)
+(* destinations it yields two PacketSent logs, two sequences, two commitments.  To the same destination the second   *)
+(* packet is numbered like the first (the contract's counter is only advanced by the chain after the transaction),   *)
+(* the chain refuses it and the whole transaction fails.                                                             *)
+SendTwoOK(c, d1, d2) == d1 \in Others(c) /\ d2 \in Others(c) /\ d1 # d2
+SendTwoEff(c, d1, d2, cl) ==
+  IF ~SendTwoOK(c, d1, d2) THEN UNCHANGED stateVars
+  ELSE LET p1 == Packet(c, d1, seq[c][d1], "none", 0, cl, 0)  p2 == Packet(c, d2, seq[c][d2], "none", 0, cl, 0) IN
+       /\ seq'  = [seq  EXCEPT ![c][d1] = @ + 1, ![c][d2] = @ + 1] /\ cseq' = [cseq EXCEPT ![c][d1] = @ + 1, ![c][d2] = @ + 1]
+       /\ commits' = [commits EXCEPT ![c] = @ \cup {p1, p2}]
+       /\ status' = [status EXCEPT ![c] = (T(p1) :> 0) @@ (T(p2) :> 0) @@ @]
+       /\ sent' = sent \cup {p1, p2}
+       /\ UNCHANGED <<h, receipts, acks, out, bind, ubal, wbal, rbal, held, clients, marks, snaps>>
+SendTwo(c, d1, d2, cl) == SendTwoEff(c, d1, d2, cl) /\ last' = [act |-> "SendTwo", res |-> Res(SendTwoOK(c, d1, d2)), chain |-> c, dst |-> d1, dst2 |-> d2, call |-> cl]
 
 CommitEff(c) ==
   /\ h' = [h EXCEPT ![c] = @ + 1]
@@ -239,6 +263,7 @@ AckAccept(c, q, a, aalt, k, pf) ==
   (* as the code behaves (observed, byte-code contracts): the refund path of an error acknowledgement fails for a    *)
   (* packet without transfer data, so such an acknowledgement is never accepted and the commitment stays (DESIGN 9.7) *)
   /\ (q.kind = "none" => a = 0)
+  /\ q.cb # "bad"
 
 (* base: a sent packet p; a is the acknowledgement code the message carries *)
 AckEff(c, p, a, alt, aalt, k, pf, s) ==
@@ -275,6 +300,9 @@ Next ==
         c # d /\ <<c, k>> \in SendFrom /\ (d \in Chains => seq[c][d] <= MaxSeq) /\ Send(c, d, k, a, cl, f)
   \/ \E c \in Chains, d \in Chains, cl \in Calls \cap {"ok", "revert"} :
         c # d /\ <<c, "fwd">> \in SendFrom /\ seq[c][d] <= MaxSeq /\ SendVia(c, d, cl)
+  \/ \E c \in Chains, d \in Chains, a \in Amts : c # d /\ <<c, "fwd">> \in SendFrom /\ seq[c][d] <= MaxSeq /\ SendBadCb(c, d, a)
+  \/ \E c \in Chains : \E d1 \in Others(c), d2 \in Others(c), cl \in Calls \cap {"ok", "revert"} :
+        <<c, "fwd">> \in SendFrom /\ seq[c][d1] <= MaxSeq /\ seq[c][d2] <= MaxSeq /\ SendTwo(c, d1, d2, cl)
   \/ \E c \in Chains : Commit(c)
   \/ \E c \in Chains : \E d \in Others(c), k \in 0..MaxH, s \in Signers : UpdateClient(c, d, k, s)
   \/ \E c \in Chains : \E d \in Others(c) : Retoggle(c, d)
